@@ -97,13 +97,14 @@ PROPS = {
             dict(run=B + "VerifC08Floor", quick=dict(ops=1, keys=1, val9=0, compactions=2), thorough=dict(ops=1, keys=1, val9=0, compactions=3, interleave=0),
                  covers=["accepted", "older-request-accepted", "refused", "refused-limited", "refused-stream", "served", "done"]),
             dict(run=B + "VerifC08Race", quick=dict(preempt=1), thorough=dict(preempt=2), covers=["refused", "served", "done"]),
+            dict(run=B + "VerifC08TwoNodes", covers=["done"]),
             dict(run=B + "VerifC08TwoCompactions", quick=dict(preempt=2), thorough=dict(preempt=3), covers=["both-accepted", "done"], stress=10),
         ],
         bounds=dict(quick="1-write history, 2 compaction requests with unconstrained 64-bit revisions (increasing, repeated, decreasing, 0, above current), then an unlimited / limited / streamed range read at any revision; "
                           "race: 3 fixed key histories (tombstone, two versions, re-created) with symbolic values, one unlimited / paginated / streamed read at any older revision r racing one compaction at any c > r, "
                           "every interleaving of their store operations with at most 1 deviation from the default scheduler, engine with and without snapshot reads",
                     thorough="3 compaction requests after a 1-write history; the racing read with at most 2 scheduling deviations"),
-        outside="Count (always served at the current revision); more than one compaction racing a read",
+        outside="Count (always served at the current revision); more than two compactions at the same time, a compaction racing another compaction and a read together",
     ),
     "C13": dict(
         harnesses=[
